@@ -52,7 +52,7 @@ def run(ctx):
             plans.append({"binary": "hooked", "site": site, "hit": 2, "action": "stall140000", "chronyd": "absent", "natural": "worker-stalls-140s", "optional_fault": True, "fire_within_s": 175})
     # chronyd answers promptly, but with replies the client cannot use; then the writer dies
     for mode in ("badversion", "badseq", "short", "errorstatus"):
-        for site, action, hit in (("writer.recv", "panic", 2), ("writer.done", "return", 3)):
+        for site, action, hit in (("writer.recv", "panic", 2), ("writer.done", "return", 3), ("writer.start", "panic", 1), ("writer.new", "return", 1)):
             plans.append({"binary": "hooked", "site": site, "hit": hit, "action": action, "chronyd": mode, "fire_within_s": 20})
     # no room for the segment (ENOSPC): the daemon may give up at once; if it waits for room and the poller dies meanwhile, it must still exit
     plans.append({"binary": "hooked", "site": "poller.loop", "hit": 3, "action": "panic", "chronyd": "absent", "natural": "segment-dir-full", "fire_within_s": 15})
